@@ -481,8 +481,83 @@ func genTuples(r *rand.Rand, n int) []tuple {
 	return out
 }
 
+// rolloverIsolation: sessions stay separate after a key rollover. Two independent key exchanges (A->B, C->D) both
+// cross the 32-bit wrap of the regular counter; frames sealed afterwards must unseal at their receiver and under no
+// session of the other exchange.
+func rolloverIsolation(res *core.Result, r *rand.Rand) {
+	type side struct {
+		p     *env.Pair
+		after [][]byte
+	}
+	mk := func() (*side, bool) {
+		s := &side{p: env.NewPair(r, "c02 rollover")}
+		h := &state.EncryptionSessionTestHelper{EncryptionSession: s.p.AB.Encryption()}
+		h.ReglSetOut(0xFFFFFFFF - uint32(1+r.IntN(3)))
+		for i := 0; i < 8; i++ {
+			mt := []frame.MessageType{frame.SessionData, frame.NetworkTraffic, frame.RouterCtrl}[i%3]
+			if i < 5 {
+				mt = frame.SessionData // regular class: crosses the wrap
+			}
+			f, err := s.p.A.BuilderV.NewFrameV1(s.p.A.IdentityV.IP, s.p.B.IdentityV.IP, mt, nil, []byte("c02 rollover payload"), nil)
+			if err != nil {
+				return nil, false
+			}
+			if err := f.Seal(s.p.AB); err != nil {
+				f.ReturnToPool()
+				res.Violate("seal-failed:across-rollover", fmt.Sprintf("sealing frame %d across the regular counter wrap failed: %v", i, err), nil)
+				return nil, false
+			}
+			d, _ := f.FrameDataWithMargins(0, 0)
+			data := append([]byte(nil), d...)
+			f.ReturnToPool()
+			g, err := s.p.B.BuilderV.ParseFrame(append([]byte(nil), data...), nil, 0)
+			if err != nil {
+				return nil, false
+			}
+			uerr := g.Unseal(s.p.BA)
+			g.ReturnToPool()
+			if uerr != nil {
+				res.Violate("roundtrip-fails:across-rollover", fmt.Sprintf("frame %d sealed across the regular counter wrap does not unseal at its receiver: %v", i, uerr), nil)
+				return nil, false
+			}
+			if i >= 5 {
+				s.after = append(s.after, data)
+			}
+		}
+		return s, true
+	}
+	s1, ok1 := mk()
+	s2, ok2 := mk()
+	if !ok1 || !ok2 {
+		return
+	}
+	for _, x := range []struct {
+		from, other *side
+	}{{s1, s2}, {s2, s1}} {
+		for _, data := range x.from.after {
+			for name, sess := range map[string]*state.Session{"the receiver of the other exchange": x.other.p.BA, "the sender of the other exchange": x.other.p.AB} {
+				g, err := x.other.p.B.BuilderV.ParseFrame(append([]byte(nil), data...), nil, 0)
+				if err != nil {
+					continue
+				}
+				uerr := g.Unseal(sess)
+				g.ReturnToPool()
+				if uerr == nil {
+					res.Violate("foreign-session-accepted:after-rollover", fmt.Sprintf("a frame (type %d) sealed after the sender's key rollover unsealed under the session of %s (an unrelated key exchange that also rolled over)", data[4], name), map[string]any{"case_id": "rollover-isolation"})
+					return
+				}
+			}
+		}
+	}
+	res.Count("rollover_isolation_pairs", 1)
+	res.Case(fmt.Sprintf("rollover-isolation|%d", r.IntN(1<<30)), true)
+}
+
 func run(c *core.Ctx) {
 	res := c.Res
+	for i := 0; i < c.Q(6, 60); i++ {
+		rolloverIsolation(res, core.RNG(fmt.Sprintf("c02/rollover/%d", i)))
+	}
 	const W = 16
 	n := c.Q(210, 1260)
 	tuples := genTuples(core.RNG("c02/tuples"), n)
